@@ -112,7 +112,7 @@ pub fn check(c: &Case, obs: &mut Obs) -> CheckResult {
 }
 
 fn run(ctx: &Ctx) {
-    let n = ctx.share(ctx.tier.pick(1_200_000, 12_000_000));
+    let n = ctx.share(ctx.tier.pick(1_200_000, 120_000_000));
     let parsers = vec![ParserId::Cnf, ParserId::Wcnf, ParserId::Gcnf, ParserId::Log];
     let strat = (proptest::sample::select(parsers), 0u8..5, any::<bool>())
         .prop_flat_map(|(parser, lit, flag)| {
